@@ -1,6 +1,6 @@
 (* C10 - Clean (consolidate, save, prune) never changes what the repository reports. *)
 From BR Require Import Base.Prelude Base.Compact Headers.Tree Headers.TreeBasics Headers.TreeInv
-     Headers.TreeSteps Headers.TreeStream Headers.TreeProps Headers.TreeExample.
+     Headers.TreeSteps Headers.TreeStream Headers.TreeProps Headers.TreeExample Headers.TreeHorizon Headers.TreeRestore.
 Open Scope N_scope.
 
 (* at any state, for any prune depth: tip, tip height and work, the chain at every height, the
@@ -27,8 +27,25 @@ Print Assumptions C10_history_kept.
 Theorem C10_preserves_invariant : forall s d, Inv s -> (0 <= d)%Z -> Inv (fst (clean s d)).
 Proof. exact clean_inv. Qed.
 Print Assumptions C10_preserves_invariant.
-(* C10_future (verdicts of later submissions are the same with and without the Clean) is not
-   proved in Coq; it is decided by the correspondence check with a clean-free control run. *)
+(* side branches can still be extended and can still overtake afterwards: Clean takes only
+   best-chain headers out of memory - every header off the best chain that was in memory still
+   is (so a child of it is still accepted, and takes the tip over when it carries more work:
+   C01_max_work) - and it never takes the parent of an in-memory side header out of memory (so
+   new forks can still start where forks already start) *)
+Theorem C10_side_branches_stay : forall s d n, Inv s -> In n (nodes s) -> n_mem n = true ->
+  is_anc (nodes s) (n_hash n) (tip s) = false ->
+  exists n', find (n_hash n) (nodes (fst (clean s d))) = Some n' /\ n_mem n' = true /\ core n' = core n.
+Proof. exact clean_keeps_side_trees. Qed.
+Print Assumptions C10_side_branches_stay.
+
+Theorem C10_fork_points_stay : forall s d c q, Inv s -> In c (nodes s) -> n_mem c = true ->
+  is_anc (nodes s) (n_hash c) (tip s) = false -> find (n_prev c) (nodes s) = Some q -> n_mem q = true ->
+  exists q', find (n_hash q) (nodes (fst (clean s d))) = Some q' /\ n_mem q' = true /\ core q' = core q.
+Proof. exact clean_keeps_fork_points. Qed.
+Print Assumptions C10_fork_points_stay.
+(* Not proved: that every later submission receives the very same verdict with and without the
+   Clean (the fork-depth rule looks at branch-continuation flags which Clean rearranges); decided by
+   the correspondence check with a clean-free control run. *)
 
 Example C10_example : tip (fst (clean (final ex_cfg ex_g ex_ops) 0)) = 5 /\
   exists n, find 1 (nodes (fst (clean (final ex_cfg ex_g ex_ops) 0))) = Some n /\ n_mem n = false.
